@@ -23,6 +23,8 @@ def scratch_repo(dst):
     src = assemble.REPO.rstrip('/') + '/'
     subprocess.run(['rsync', '-a', '--exclude', 'target', '--exclude', '.git', '--exclude', 'files',
                     '--exclude', 'examples/target', src, dst + '/'], check=True)
+    # shared target dir + preserved mtimes would let cargo reuse a crate built from another tree as "fresh"
+    subprocess.run(['find', dst, '-name', '*.rs', '-exec', 'touch', '{}', '+'], check=False)
     cfgdir = os.path.join(dst, '.cargo')
     os.makedirs(cfgdir, exist_ok=True)
     with open(os.path.join(cfgdir, 'config.toml'), 'a') as f:
@@ -76,102 +78,123 @@ def parse_output(out):
     return res
 
 
-def run_unit_kani(unit_name, unit_dir, unit, tier, work, only_props=None, playback=False):
+def select(unit, tier, only_props):
     kspec = unit.get('kani')
     if not kspec:
-        return None
+        return []
     hs = [h for h in kspec['harnesses'] if (tier == 'thorough' or h.get('tier', 'quick') == 'quick')]
     if only_props:
         hs = [h for h in hs if set(h.get('props', [])) & set(only_props)]
-    if not hs:
-        return None
+    return hs
+
+
+def run_units_kani(units, tier, work, only_props=None, tag='k'):
+    """units: {name: (path, unit)}. ONE scratch copy of /repo receives the harness modules of every unit that has
+    selected harnesses; ONE `cargo kani` run checks them all (one build of the crate)."""
+    sel = {}
+    for name, (path, unit) in units.items():
+        hs = select(unit, tier, only_props)
+        if hs:
+            sel[name] = (path, unit, hs)
+    if not sel:
+        return []
     t0 = time.time()
-    res = {'unit': unit_name + ':kani', 'status': 'ok', 'obligations': [], 'notes': [], 'trusted': [],
-           'functions': [], 'cmds': [], 'smt_s': 0.0, 'replay_extra': {}}
-    dst = os.path.join(work, 'kani_' + unit_name)
+    results = {name: {'unit': name + ':kani', 'status': 'ok', 'obligations': [], 'notes': [], 'trusted': [],
+                      'functions': [], 'cmds': [], 'smt_s': 0.0, 'replay_extra': {}} for name in sel}
+    dst = os.path.join(work, 'kani_' + tag)
     os.makedirs(dst, exist_ok=True)
     os.makedirs(CACHE, exist_ok=True)
     try:
         scratch_repo(dst)
-        inject(dst, unit_name, unit_dir, kspec)
+        for name, (path, unit, hs) in sel.items():
+            inject(dst, name, path, unit['kani'])
     except assemble.Undecided as ex:
-        res['status'] = 'undecided'
-        res['notes'].append(str(ex))
-        return res
+        for r in results.values():
+            r['status'] = 'undecided'
+            r['notes'].append(str(ex))
+        return list(results.values())
     target = os.path.join(CACHE, 'kani-target')
+    jobs = max([u['kani'].get('jobs', 8) for _, u, _ in sel.values()])
+    cmd = ['cargo', 'kani', '-p', 'pdf', '-Z', 'function-contracts', '-Z', 'stubbing',
+           '--target-dir', target, '-j', str(jobs), '--output-format', 'terse']
+    for _, unit, hs in sel.values():
+        for a in unit['kani'].get('args', []):
+            if a not in cmd:
+                cmd.append(a)
+        for h in hs:
+            cmd += ['--harness', h['name']]
+    env = dict(os.environ, CARGO_NET_OFFLINE='true')
+    tmo = sum(u['kani'].get('timeout', 1500 if tier == 'quick' else 7200) for _, u, _ in sel.values())
     lock = open(os.path.join(CACHE, 'kani.lock'), 'w')
     fcntl.flock(lock, fcntl.LOCK_EX)
     try:
-        # group harnesses by timeout to keep one build; run all in one cargo kani invocation
-        cmd = ['cargo', 'kani', '-p', 'pdf', '-Z', 'function-contracts', '-Z', 'stubbing',
-               '--target-dir', target, '-j', str(kspec.get('jobs', 8)), '--output-format', 'terse']
-        for a in kspec.get('args', []):
-            cmd.append(a)
-        for h in hs:
-            cmd += ['--harness', h['name']]
-        env = dict(os.environ, CARGO_NET_OFFLINE='true')
-        tmo = kspec.get('timeout', 1500 if tier == 'quick' else 7200)
         from .verus import run_group
         try:
             p = run_group(cmd, cwd=dst, env=env, timeout=tmo)
             out = p.stdout + '\n' + p.stderr
-        except subprocess.TimeoutExpired as ex:
+        except subprocess.TimeoutExpired:
             out = '\n[driver] cargo kani timed out after %ds' % tmo
     finally:
         fcntl.flock(lock, fcntl.LOCK_UN)
         lock.close()
-    res['cmds'].append(' '.join(cmd).replace(target, '<cache>/kani-target'))
+    shown = ' '.join(cmd).replace(target, '<cache>/kani-target')
     parsed = parse_output(out)
-    for h in hs:
-        oid = '%s/%s/%s' % (unit_name, h.get('fn', 'kani'), h['name'])
-        pr = parsed.get(h['name'])
-        kind = h.get('kind', 'bounded')
-        rec = {'id': oid, 'backend': 'kani+cbmc', 'props': h.get('props', []), 'status': 'discharged',
-               'bound': 'complete (loop-free, full domain)' if kind == 'complete' else 'BOUNDED: ' + h.get('bound', '?'),
-               'time_s': pr['time'] if pr else None, 'contract': h.get('contract', ''), 'kind': kind}
-        if pr is None:
-            rec['status'] = 'undecided'
-            rec['messages'] = ['harness produced no result (build error, timeout or out of memory)']
-            res['status'] = 'undecided'
-            res['notes'].append('kani harness %s: no result; tail of output:\n%s' % (h['name'], out[-2500:]))
-        elif pr['status'] == 'SUCCESSFUL':
-            if h.get('covers') and pr['covers'] and pr['covers'][0] != pr['covers'][1]:
+    for name, (path, unit, hs) in sel.items():
+        res = results[name]
+        res['cmds'].append(shown)
+        kspec = unit['kani']
+        for h in hs:
+            oid = '%s/%s/%s' % (name, h.get('fn', 'kani'), h['name'])
+            pr = parsed.get(h['name'])
+            kind = h.get('kind', 'bounded')
+            rec = {'id': oid, 'backend': 'kani+cbmc', 'props': h.get('props', []), 'status': 'discharged',
+                   'bound': 'complete (loop-free, full domain)' if kind == 'complete' else 'BOUNDED: ' + h.get('bound', '?'),
+                   'time_s': pr['time'] if pr else None, 'contract': h.get('contract', ''), 'kind': kind}
+            if pr is None:
                 rec['status'] = 'undecided'
-                rec['messages'] = ['vacuity: only %s of %s cover properties satisfied' % pr['covers']]
+                rec['messages'] = ['harness produced no result (build error, timeout or out of memory)']
                 res['status'] = 'undecided'
-                res['notes'].append('kani harness %s: cover not satisfied' % h['name'])
-        elif pr['status'] == 'FAILED':
-            # unwinding-assertion failures mean "bound too small", not a violation
-            real = [f for f in pr['failed_checks'] if 'unwinding assertion' not in f]
-            if not real and pr['failed_checks']:
-                rec['status'] = 'undecided'
-                rec['messages'] = pr['failed_checks']
-                res['status'] = 'undecided'
-                res['notes'].append('kani harness %s: unwinding bound too small' % h['name'])
+                res['notes'].append('kani harness %s: no result; tail of output:\n%s' % (h['name'], out[-2500:]))
+            elif pr['status'] == 'SUCCESSFUL':
+                if h.get('covers') and pr['covers'] and pr['covers'][0] != pr['covers'][1]:
+                    rec['status'] = 'undecided'
+                    rec['messages'] = ['vacuity: only %s of %s cover properties satisfied' % pr['covers']]
+                    res['status'] = 'undecided'
+                    res['notes'].append('kani harness %s: cover not satisfied' % h['name'])
+            elif pr['status'] == 'FAILED':
+                real = [f for f in pr['failed_checks'] if 'unwinding assertion' not in f]
+                if not real and pr['failed_checks']:
+                    rec['status'] = 'undecided'
+                    rec['messages'] = pr['failed_checks']
+                    res['status'] = 'undecided'
+                    res['notes'].append('kani harness %s: unwinding bound too small' % h['name'])
+                else:
+                    rec['status'] = 'failed'
+                    rec['messages'] = pr['failed_checks']
+                    rec['rendered'] = pr['text'][-4000:]
             else:
-                rec['status'] = 'failed'
-                rec['messages'] = pr['failed_checks']
-                rec['rendered'] = pr['text'][-4000:]
-        else:
-            rec['status'] = 'undecided'
-            rec['messages'] = ['kani status %s' % pr['status']]
-            res['status'] = 'undecided'
-            res['notes'].append('kani harness %s: %s\n%s' % (h['name'], pr['status'], pr['text'][-1500:]))
-        res['obligations'].append(rec)
-        res['functions'].append({'fn': h.get('fn', ''), 'file': h.get('file', ''), 'props': h.get('props', []), 'time_s': rec['time_s']})
-    # concrete playback for failed harnesses: the verifier's counterexample
-    failed = [o for o in res['obligations'] if o['status'] == 'failed']
-    if failed:
-        for o in failed:
+                rec['status'] = 'undecided'
+                rec['messages'] = ['kani status %s' % pr['status']]
+                res['status'] = 'undecided'
+                res['notes'].append('kani harness %s: %s\n%s' % (h['name'], pr['status'], pr['text'][-1500:]))
+            res['obligations'].append(rec)
+            res['functions'].append({'fn': h.get('fn', ''), 'file': h.get('file', ''), 'props': h.get('props', []),
+                                     'time_s': rec['time_s'], 'backend': 'kani'})
+        for o in [o for o in res['obligations'] if o['status'] == 'failed']:
             hname = o['id'].split('/')[-1]
             cex = concrete_playback(dst, target, hname, kspec)
             if cex:
                 res['replay_extra'][o['id']] = {'failing_input': cex, 'harness': hname}
-    for s in kspec.get('stubs', []):
-        res['trusted'].append('%s:kani stub %s' % (unit_name, s))
-    res['time_s'] = round(time.time() - t0, 1)
+        for st in kspec.get('stubs', []):
+            res['trusted'].append('%s:kani stub %s' % (name, st))
+        res['time_s'] = round(time.time() - t0, 1)
     shutil.rmtree(dst, ignore_errors=True)
-    return res
+    return list(results.values())
+
+
+def run_unit_kani(unit_name, unit_dir, unit, tier, work, only_props=None, playback=False):
+    r = run_units_kani({unit_name: (unit_dir, unit)}, tier, work, only_props, tag=unit_name)
+    return r[0] if r else None
 
 
 def concrete_playback(dst, target, hname, kspec):
@@ -192,9 +215,4 @@ def concrete_playback(dst, target, hname, kspec):
 
 
 def run_for_property(prop, mine, tier, work):
-    out = []
-    for name, (path, unit) in mine.items():
-        r = run_unit_kani(name, path, unit, tier, work, only_props=[prop])
-        if r:
-            out.append(r)
-    return out
+    return run_units_kani(mine, tier, work, only_props=[prop], tag=prop)
